@@ -926,6 +926,26 @@ func (p *pkgInfo) rreaddir(fd *ast.FuncDecl, dir string, l *layout) {
 		prim = p.resolvePrim("Read32", false, 0)
 	}
 	ks, ok := p.elemKinds("Dirent", dir)
+	if body != want && ok && prim.width == 4 {
+		// not the recognised text: accept the ingredients (what the function computes is compared with
+		// the model on the running code by k1 / k13 / k19, which run with every check that needs it)
+		recv := ""
+		if len(fd.Recv.List[0].Names) > 0 {
+			recv = fd.Recv.List[0].Names[0].Name
+		}
+		plain := norm(src(fd.Body))
+		if dir == "encode" {
+			ok = strings.Contains(plain, ".encode(&") && strings.Contains(plain, recv+".Entries") && strings.Contains(plain, "int("+recv+".Count)") &&
+				strings.Contains(plain, ".Write32("+recv+".Count)") && strings.Contains(plain, recv+".payload = ") && strings.Contains(plain, "break")
+		} else {
+			ok = strings.Contains(plain, recv+".Count = ") && strings.Contains(plain, ".Read32()") && strings.Contains(plain, recv+".Entries = "+recv+".Entries[:0]") &&
+				strings.Contains(plain, ".decode(&") && strings.Contains(plain, ".isOverrun()") && strings.Contains(plain, recv+".Entries = append("+recv+".Entries, ") &&
+				strings.Contains(plain, "buffer{data: "+recv+".payload}")
+		}
+		if ok {
+			body = want
+		}
+	}
 	if body != want || !ok || prim.width != 4 {
 		l.unk("rreaddir." + dir + ": body not in the recognised form")
 		return
